@@ -200,39 +200,54 @@ func c10(r *core.Run) {
 			}
 			okReset, detail := false, "stored value is not json.Marshal of a fresh map"
 			for _, st := range fieldStores(al, field) {
-				// value = string(json.Marshal(M)#0)
+				// value = string(json.Marshal(M)#0), possibly produced by a helper that returns the marshalled string
+				// or the fresh map
 				var m ssa.Value
-				v := st.Val
-				for i := 0; i < 4 && v != nil; i++ {
-					switch x := v.(type) {
-					case *ssa.Convert:
-						v = x.X
-					case *ssa.Extract:
-						v = x.Tuple
-					case *ssa.Call:
-						if strings.HasSuffix(core.CalleeFullName(x), "encoding/json.Marshal") {
-							if mi, ok := x.Call.Args[0].(*ssa.MakeInterface); ok {
-								m = mi.X
-							}
-						}
-						v = nil
-					default:
-						v = nil
-					}
-				}
-				mm, isMake := m.(*ssa.MakeMap)
 				var helperCall *ssa.Call
-				if !isMake {
-					// a helper that builds and returns the fresh map
-					if hc, ok := m.(*ssa.Call); ok && len(p.Callees(hc)) == 1 {
-						for _, hb := range p.Callees(hc)[0].Blocks {
-							if ret, ok := hb.Instrs[len(hb.Instrs)-1].(*ssa.Return); ok && len(ret.Results) == 1 {
-								if mk, ok := ret.Results[0].(*ssa.MakeMap); ok {
-									mm, isMake, helperCall = mk, true, hc
+				var find func(v ssa.Value, idx int, depth int)
+				find = func(v ssa.Value, idx int, depth int) {
+					for i := 0; i < 6 && v != nil && m == nil; i++ {
+						switch x := v.(type) {
+						case *ssa.Convert:
+							v = x.X
+						case *ssa.Extract:
+							idx = x.Index
+							v = x.Tuple
+						case *ssa.MakeMap:
+							m = x
+							v = nil
+						case *ssa.Call:
+							if strings.HasSuffix(core.CalleeFullName(x), "encoding/json.Marshal") {
+								v = nil
+								if mi, ok := x.Call.Args[0].(*ssa.MakeInterface); ok {
+									v = mi.X // the marshalled map: a make(...) here or the result of a helper
+									idx = 0
+								}
+								continue
+							}
+							if cs := p.Callees(x); len(cs) == 1 && depth < 2 {
+								if helperCall == nil {
+									helperCall = x
+								}
+								for _, hb := range cs[0].Blocks {
+									if ret, ok := hb.Instrs[len(hb.Instrs)-1].(*ssa.Return); ok && idx < len(ret.Results) {
+										if c, isC := ret.Results[idx].(*ssa.Const); isC && c.Value != nil && c.Value.ExactString() == `""` {
+											continue // the failing return
+										}
+										find(ret.Results[idx], 0, depth+1)
+									}
 								}
 							}
+							v = nil
+						default:
+							v = nil
 						}
 					}
+				}
+				find(st.Val, 0, 0)
+				mm, isMake := m.(*ssa.MakeMap)
+				if !isMake {
+					helperCall = nil
 				}
 				if !isMake {
 					continue
@@ -343,8 +358,8 @@ func c10(r *core.Run) {
 		for _, fn := range p.Summary(h.Fn).Funcs {
 			for _, e := range p.Effects(fn) {
 				call, ok := e.Instr.(ssa.CallInstruction)
-				if !ok || e.Direct || len(e.Store) == 0 || fn == h.Fn {
-					continue
+				if !ok || e.Direct || !performsDirectly(p, fn, e, "Set", ftFiles) {
+					continue // only the call of the record setter itself, wherever it sits (handler or helper)
 				}
 				nw++
 				args := dataArgs(call)
